@@ -9,7 +9,7 @@ import math
 from . import configs
 from .core import ChoiceSource, HarnessError, Violation
 from .observe import algo_digest
-from .seams import ExpansionRecorder
+from .seams import ExpansionRecorder, StepBudget
 from .world import Oracle, seam
 
 
@@ -85,6 +85,9 @@ class ShadowOracle(Oracle):
         ExpansionRecorder.ACTIVE = None
         try:
             return fn()
+        except StepBudget.Hang:
+            raise Violation("%s.hang" % self.prop, "shadow run '%s' did not return within the branch budget although the reference run did (round %d)"
+                            % (sh.name, ctx.t), shadow=sh.name)
         except _Diverged as d:
             raise Violation("%s.diverge" % self.prop, "shadow run '%s' %s (round %d)" % (sh.name, d, ctx.t), shadow=sh.name)
         except (Violation, HarnessError):
@@ -197,13 +200,13 @@ class ShadowOracle(Oracle):
             sm.set_source(_Const())
             try:
                 x = ctx.algo.get_last_point()
-            except Exception:
+            except (StepBudget.Hang, Exception):
                 return  # the primary cannot recommend yet (C01's business)
             for sh in self.shadows:
                 sm.set_source(_Const())
                 try:
                     y = sh.algo.get_last_point()
-                except Exception as e:  # noqa
+                except (StepBudget.Hang, Exception) as e:  # noqa
                     raise Violation("%s.recommend" % self.prop, "shadow run '%s' cannot recommend (%s) although the reference run can"
                                     % (sh.name, type(e).__name__), shadow=sh.name)
                 if not self._same(sh, x, y):
